@@ -279,6 +279,7 @@ func wrap(m mat.Matrix, tw string) (mat.Matrix, error) {
 // ------------------------------------------------------------ the call
 
 type result struct {
+	err  error       // error returned by Inverse / Solve*
 	m    mat.Matrix  // receiver / matrix result, read through Dims and At
 	rows [][]float64 // scalar, boolean and slice results
 	ret  []int       // returned counts (Copy)
@@ -348,7 +349,41 @@ func call(c *rcase, recv mat.Matrix, a []mat.Matrix) result {
 		recv.(*mat.Dense).Outer(al, vecArg(a, 0), vecArg(a, 1))
 	case "Product":
 		recv.(*mat.Dense).Product(a...)
+	case "DivElem":
+		recv.(*mat.Dense).DivElem(a[0], a[1])
+	case "Inverse":
+		return result{m: recv, err: recv.(*mat.Dense).Inverse(a[0])}
+	case "Solve":
+		return result{m: recv, err: recv.(*mat.Dense).Solve(a[0], a[1])}
+	case "SolveTo":
+		st, ok := a[0].(interface {
+			SolveTo(dst *mat.Dense, trans bool, b mat.Matrix) error
+		})
+		if !ok {
+			panic(typeErr{fmt.Sprintf("%T has no SolveTo", a[0])})
+		}
+		return result{m: recv, err: st.SolveTo(recv.(*mat.Dense), c.N1 == 1, a[1])}
 	// ---- VecDense receiver
+	case "DivElemVec":
+		recv.(*mat.VecDense).DivElemVec(vecArg(a, 0), vecArg(a, 1))
+	case "SolveVec":
+		return result{m: recv, err: recv.(*mat.VecDense).SolveVec(a[0], vecArg(a, 1))}
+	case "SolveVecTo":
+		st, ok := a[0].(interface {
+			SolveVecTo(dst *mat.VecDense, trans bool, b mat.Vector) error
+		})
+		if !ok {
+			panic(typeErr{fmt.Sprintf("%T has no SolveVecTo", a[0])})
+		}
+		return result{m: recv, err: st.SolveVecTo(recv.(*mat.VecDense), c.N1 == 1, vecArg(a, 1))}
+	case "MulVecTo":
+		mv, ok := a[0].(interface {
+			MulVecTo(dst *mat.VecDense, trans bool, x mat.Vector)
+		})
+		if !ok {
+			panic(typeErr{fmt.Sprintf("%T has no MulVecTo", a[0])})
+		}
+		mv.MulVecTo(recv.(*mat.VecDense), c.N1 == 1, vecArg(a, 1))
 	case "MulVec":
 		recv.(*mat.VecDense).MulVec(a[0], vecArg(a, 1))
 	case "AddVec":
@@ -390,6 +425,10 @@ func call(c *rcase, recv mat.Matrix, a []mat.Matrix) result {
 	case "CopyTri":
 		r, cc := recv.(*mat.TriDense).Copy(a[0])
 		return result{m: recv, ret: []int{r, cc}}
+	case "InverseTri":
+		return result{m: recv, err: recv.(*mat.TriDense).InverseTri(triArg(a, 0))}
+	case "Det":
+		return scalar(mat.Det(a[0]))
 	// ---- functions
 	case "Sum":
 		return scalar(mat.Sum(a[0]))
@@ -424,13 +463,14 @@ func call(c *rcase, recv mat.Matrix, a []mat.Matrix) result {
 
 func family(op string) string {
 	switch op {
-	case "MulVec", "AddVec", "SubVec", "MulElemVec", "AddScaledVec", "ScaleVec", "CopyVec", "CloneFromVec":
+	case "MulVec", "AddVec", "SubVec", "MulElemVec", "AddScaledVec", "ScaleVec", "CopyVec", "CloneFromVec",
+		"DivElemVec", "MulVecTo", "SolveVec", "SolveVecTo":
 		return "Vec"
 	case "AddSym", "CopySym", "ScaleSym", "SymRankOne", "RankTwo", "SymRankK", "SymOuterK":
 		return "Sym"
-	case "ScaleTri", "MulTri", "CopyTri":
+	case "ScaleTri", "MulTri", "CopyTri", "InverseTri":
 		return "Tri"
-	case "Sum", "Max", "Min", "Trace", "Norm1", "NormInf", "Equal", "Dot", "Inner", "Row", "Col":
+	case "Det", "Sum", "Max", "Min", "Trace", "Norm1", "NormInf", "Equal", "Dot", "Inner", "Row", "Col":
 		return "Func"
 	}
 	return "Dense"
@@ -597,6 +637,10 @@ func replay(in *core.Lines, args []string, seed int64, sum *core.Summary) error 
 			continue
 		}
 
+		if res.err != nil {
+			sum.Fail(sig("error-returned"), fmt.Sprintf("returned error %q; spec demands %s", res.err, expText(&c)), raw)
+			continue
+		}
 		// compare the result, read through Dims and At only
 		if len(c.Exp.Ret) > 0 {
 			if fmt.Sprint(res.ret) != fmt.Sprint(c.Exp.Ret) {
